@@ -22,7 +22,7 @@ import (
 )
 
 type addend struct {
-	otoks   string // what the Lean model is asked (default: toks)
+	otoks   string                                    // what the Lean model is asked (default: toks)
 	derive  map[int]func(rho func(int) uint64) uint64 // vregs whose content is defined by an instruction of the shape
 	toks    string
 	shape   bool // AExpr.frontendShape
